@@ -605,7 +605,8 @@ async fn run(lines: Vec<String>, prop: String, out: &mut Out) {
 				let inv = c.env.take_log();
 				let cb = canon_resp(&String::from_utf8_lossy(&body));
 				let o = format!("h:{st}:{} | {}", hexs(&cb), inv_repr(&inv));
-				let o = if chunks.iter().all(|c| std::str::from_utf8(c).is_ok()) { o } else { format!("#skip {o}") };
+				// the model reads frames as bytes; only a body that is not UTF-8 as a whole is outside it
+				let o = if std::str::from_utf8(&chunks.concat()).is_ok() { o } else { format!("#skip {o}") };
 				// C19 oracle: gate + chunk independence (compare with the one-chunk, no-content-length run)
 				let mut orc = Ok(());
 				let ct_ok = headers.iter().find(|(k, _)| k == "content-type").map(|(_, v)| {
@@ -655,6 +656,9 @@ async fn run(lines: Vec<String>, prop: String, out: &mut Out) {
 							}
 						}
 					}
+				}
+				if std::str::from_utf8(&chunks.concat()).is_ok() && chunks.iter().any(|c| std::str::from_utf8(c).is_err()) {
+					out.count("http.frame_boundary_inside_char");
 				}
 				out.count(&format!("http.{st}"));
 				out.line(line.clone(), o, orc, st == 200);
@@ -1092,6 +1096,21 @@ fn gen_c19(rng: &mut Rng, n: u64, lines: &mut Vec<String>) {
 	let near = ["application/jsonx", "application/json ", " application/json", "application/json; charset=utf-16", "text/plain", "application/json;", "json", "application/json-rpcx", "application/json;  charset=utf-8", "", "application/jsonp; charset=utf-8", "application/json-patch+json;charset=utf-8", "application/json-rpcx;charset=utf-8", "application/json; boundary=x; charset=utf-8", "text/plain; charset=utf-8", "application/jsonx;charset=utf-8", "application/json-rpc; charset=utf-8 ", "application/json-rpc ;charset=utf-8", "charset=utf-8", "application/json;charset=utf-8;", "application/json,application/json", "APPLICATION/JSONS"];
 	let methods = ["GET", "PUT", "DELETE", "HEAD", "OPTIONS", "PATCH", "TRACE", "CONNECT", "post", "Post"];
 	let mut cn = 0;
+	// every byte position of a body with 2-, 3- and 4-byte characters (frame boundaries inside characters),
+	// in two and in three frames, with and without Content-Length
+	lines.push("case 0 srv 100000 100000 u".into());
+	{
+		let body = "\u{c} {\"jsonrpc\":\"2.0\",\"id\":\"ü\",\"method\":\"echo\",\"params\":[\"grüße €5 😀\",\"𝄞\"]}".as_bytes().to_vec();
+		let ct = hexs("application/json");
+		for p in 0..=body.len() {
+			let cl = if p % 3 == 0 { body.len().to_string() } else { "none".into() };
+			lines.push(format!("http POST {ct} {cl} {} {}", hex(&body[..p]), hex(&body[p..])));
+			if p + 2 <= body.len() {
+				lines.push(format!("http POST {ct} none {} {} {}", hex(&body[..p]), hex(&body[p..p + 1]), hex(&body[p + 1..])));
+			}
+		}
+	}
+	lines.push(sentinel(0));
 	for i in 0..n {
 		cn += 1;
 		lines.push(format!("case {cn} srv {} 100000 {}", if rng.chance(1, 5) { rng.range(40, 200) } else { 100000 }, batch_cfg(rng)));
